@@ -285,6 +285,10 @@ func runC18(c *eng.Ctx) {
 	}
 	c.Floor(9)
 
+	c.Rule("R16.9", "K6")
+	ruleInternalPublishesWaive(c)
+	c.Floor(2)
+
 	// ---- R18.4
 	c.Rule("R18.4", "K2")
 	if fn := c.Fn("server.(*activityManager).publishActivityEvent"); fn != nil {
